@@ -276,7 +276,7 @@ def _rand_index(w, x):
             a = rng.randrange(n)
             per.append(slice(a, a + 1))
         elif k < 0.9:
-            per.append(slice(None, None, 2))
+            per.append(rng.choice([slice(None, None, 2), slice(-2, None, 2), slice(-n, None, 2), slice(1, -1, 2)]) if n >= 3 else slice(None, None, 2))
         else:
             per.append(slice(0, max(1, n - 1)))
     d = len(per)
